@@ -340,6 +340,39 @@ def result_wrappers(ctx, prog, model, xs, label):
         ctx.hit("result-wrapper-raised:" + type(e).__name__)
 
 
+def second_pass(ctx):
+    """a prior that came out of prior passing and is then placed at another attribute is passed on like a fresh prior of
+    the same kind placed there: its width comes from the configuration of the place it is at NOW"""
+    import contextlib, io
+    import vlib
+    rng = ctx.rng
+    for cls, src, dst in ((vlib.P2, "a", "b"), (vlib.P2, "b", "a"), (vlib.P3, "a", "c"), (vlib.P3, "c", "b")):
+        x1 = [rng.choice([-1, 1]) * rng.uniform(0.5, 20.0) for _ in range(3)]
+        x2 = [rng.uniform(0.5, 20.0) for _ in range(3)]
+        case = {"label": "second-pass", "cls": cls.__name__, "src": src, "dst": dst, "first": x1, "second": x2}
+        try:
+            with contextlib.redirect_stdout(io.StringIO()):
+                m1 = af.Model(cls)
+                r1 = m1.mapper_from_prior_means(x1[: m1.prior_count])
+                passed = getattr(r1, src)
+                m2, m3 = af.Model(cls), af.Model(cls)
+                setattr(m2, dst, passed)
+                setattr(m3, dst, af.GaussianPrior(mean=passed.mean, sigma=passed.sigma, lower_limit=passed.lower_limit, upper_limit=passed.upper_limit))
+                val = dict(zip("abc", x2))  # the same inferred value for the same attribute in both models
+                r2 = m2.mapper_from_prior_means([val[str(p_[-1])] for p_ in m2.paths])
+                r3 = m3.mapper_from_prior_means([val[str(p_[-1])] for p_ in m3.paths])
+            got = {".".join(map(str, p)): readable(desc(pr)) for p, pr in r2.path_priors_tuples}
+            want = {".".join(map(str, p)): readable(desc(pr)) for p, pr in r3.path_priors_tuples}
+        except Exception as e:  # noqa
+            ctx.hit("second-pass-raised:" + type(e).__name__)
+            continue
+        ctx.hit("second-pass")
+        if got != want:
+            ctx.fail("C12-passed-prior-carries-history", "a prior produced by prior passing and placed at another attribute is passed on with another "
+                     "width than a fresh prior of the same kind placed there", case, {"got": got, "want": want})
+            return
+
+
 def classify_raise(model, mode, xs, e):
     if mode["k"] == "with_limits" and any(type(p).__name__ == "LogGaussianPrior" for p in model.priors):
         return "C12-with-limits-loggaussian"
@@ -433,6 +466,7 @@ def run(ctx):
     for f in sorted((VERIF / "corpus" / "C12").glob("*.json")):
         c = json.loads(f.read_text())
         one_case(ctx, c["program"], label=f.name)
+    second_pass(ctx)
     c12_cfg.lookup_cases(ctx, SCRATCH, ctx.n(400, 6000))
     for _ in range(ctx.n(160, 3000)):
         prog = gen_comp.gen_program(ctx.rng, allow_pow=False)
@@ -444,6 +478,8 @@ def replay(ctx, payload):
     setup_config(ctx)
     if "lookup" in case:
         return c12_cfg.replay_lookup(ctx, SCRATCH, case["lookup"])
+    if case.get("label") == "second-pass":
+        return second_pass(ctx)
     if "result_questions" in case:
         model = gen_comp.run_program(case["program"])["root"]
         return result_wrappers(ctx, case["program"], model, case["inferred"], "replay")
